@@ -242,3 +242,28 @@ func convergeNodesPaths[T any](nodes []*Node[T], paramIndex int) *Node[T] {
 func buildAssumedPathParamName(paramIndex int) string {
 	return fmt.Sprintf("_param_%v", paramIndex)
 }
+
+// LookupDeclaredURLExact returns the value stored for exactly this declared URL, path parameter names included
+// (the same constant parts, path parameters and trailing wildcard that
+// InsertDeclaredURL would walk), or nil when nothing was declared on it.
+// Unlike Lookup it never falls back to a wildcard or path parameter node.
+func (urlTree *URLTree[T]) LookupDeclaredURLExact(url string) *T {
+	currentNode := urlTree.Root
+	for _, urlPart := range splitURL(url) {
+		var child *Node[T]
+		if urlPart.Value == wildcard {
+			child = currentNode.WildcardChild
+		} else if paramName, isPathParam := TryExtractPathParameter(urlPart.Value); isPathParam {
+			if paramName == currentNode.ParametricChild.Name {
+				child = currentNode.ParametricChild.Child
+			}
+		} else {
+			child = currentNode.ConstantChildren[urlPart.Value]
+		}
+		if child == nil {
+			return nil
+		}
+		currentNode = child
+	}
+	return currentNode.Value
+}
